@@ -179,8 +179,7 @@ pub fn check_jit(c: &JitCase) -> CheckResult {
                 g.next_u64();
             }
             JOp::Fill(n) => {
-                let mut b = vec![0u8; *n];
-                g.fill(&mut b);
+                crate::ops::fill_unaligned(&mut *g, *n);
             }
             JOp::Stats(v) => {
                 g.jitter().unwrap().timer_stats(*v);
@@ -302,6 +301,26 @@ pub fn def(ctx: &Ctx) -> PropDef {
             t.pick(2, 6),
             move || gens::det_spec(ty, true).prop_map(move |spec| DetCase { build: Build::Spec(spec), ops: vec![XOp::Op(Op::Fill(words * 4)), XOp::Op(Op::U32), XOp::Op(Op::U64), XOp::Op(Op::Fill(70_001)), XOp::Op(Op::U64)] }).boxed(),
             check_det,
+        ));
+    }
+    // thorough only: HC-128 past 2^32 words (u32 counters), ~17 GiB of keystream, no model needed
+    if t == crate::engine::Tier::Thorough {
+        subs.push(PSub::boxed(
+            "long/Hc128Rng-past-2^32-words",
+            1,
+            || gens::det_spec(Ty::Hc128, false).prop_map(|spec| DetCase { build: Build::Spec(spec), ops: vec![XOp::Op(Op::U32)] }).boxed(),
+            |c: &DetCase| {
+                let mut g = match &c.build {
+                    Build::Spec(s) => s.build(),
+                    _ => unreachable!(),
+                };
+                let mut buf = vec![0u8; 1 << 20];
+                for _ in 0..(16 * 1024 + 64) {
+                    g.fill(&mut buf);
+                }
+                g.next_u64();
+                Ok(CaseInfo::new(true).class("2^32+ words"))
+            },
         ));
     }
     // a stuck timer for a very long time that then recovers: retry counters of any width up to
